@@ -480,9 +480,16 @@ func (g *gen) claimedCase() (string, []byte) {
 		name = "claimed-above-cap"
 		over := []int32{int32(g.cap) + 1, int32(g.cap) + 4096, 1<<31 - 1, 1 << 30}[g.rng.Intn(4)]
 		var z []byte
-		if g.rng.Intn(2) == 0 {
+		switch g.rng.Intn(16) {
+		case 0:
+			// a body that really inflates to the claimed size: only the direction cap refuses it
+			// (expensive: 2-8 MiB, keep it rare)
+			name = "claimed-above-cap-exact-body"
+			over = int32(g.cap) + 1 + int32(g.rng.Intn(2))*4095
+			z = frameref.Zlib(make([]byte, over), 1)
+		case 1, 2, 3, 4, 5, 6, 7:
 			z = frameref.Zlib(data, g.level())
-		} else {
+		default:
 			z = []byte{0x78, 0x9c, 0x01}
 		}
 		body = append(frameref.PutVarInt(nil, over), z...)
